@@ -100,6 +100,12 @@ Fixpoint vrun (env : list sval) (ops : list sprog) : list sval :=
   | o :: r => let '(env', k) := vstep env o in nth k env' VInvalid :: vrun env' r
   end.
 
+(** tolerances of the derived quantities are relative to the size of the data (mean: max |v|, variance: its square), so that
+    data at the scale of 1e-9 are judged as strictly as data at the scale of 1 *)
+Definition vscale (ps : list (Qc * Qc)) : Qc := fold_right Qcmax 0 (map (fun p => Qcabs (fst p)) ps).
+Definition xclose_abs (tol : Qc) (a b : xnum) : bool :=
+  match a, b with Fin x, Fin y => Qcleb (Qcabs (x - y)) tol | _, _ => xeqb a b end.
+
 (** observation of one step: [sum sum2 min max weight median mean variance std2] *)
 Definition check_stat (eps : Qc) (v : sval) (obs : sx) : bool :=
   match obs with
@@ -113,8 +119,9 @@ Definition check_stat (eps : Qc) (v : sval) (obs : sx) : bool :=
               xclose eps (st_sum s) a && xclose eps (st_sum2 s) b && xclose eps (st_weight s) e &&
               (match ps with [] => true | _ => xeqb (st_min s) c && xeqb (st_max s) d end) &&
               (if fresh then match ps with [] => true | _ => xeqb (median (map fst ps)) f end else true) &&
-              xclose (eps + mkq 1 1000000000000) (st_mean s) m &&
-              xclose (eps + mkq 1 1000000000) (st_var s) va && xclose (eps + mkq 1 1000000000) (st_var s) sd2
+              xclose_abs ((eps + mkq 1 1000000000000) * vscale ps) (st_mean s) m &&
+              xclose_abs ((eps + mkq 1 1000000000) * (vscale ps * vscale ps)) (st_var s) va &&
+              xclose_abs ((eps + mkq 1 1000000000) * (vscale ps * vscale ps)) (st_var s) sd2
           end
       | _, _, _, _, _, _, _, _, _ => false end
   | _ => false end.
